@@ -179,6 +179,8 @@ type unmarshalEntry struct {
 type hasher struct {
 	// IDSize of the respective Shwap container
 	IDSize int // to be set during hasher registration
+	// MhCode is the multihash code the hasher is registered for
+	MhCode uint64 // to be set during hasher registration
 
 	sum []byte
 }
@@ -204,6 +206,15 @@ func (h *hasher) write(data []byte) error {
 	id, err := extractFromCID(cid)
 	if err != nil {
 		return err
+	}
+
+	// the block has to be of the type this hasher is registered for: the multihash layer truncates
+	// the sum to the length requested by the sender's prefix, so the ID of another Block type
+	// must never become the sum, or it could be taken for a different, pending ID
+	// that was never verified
+	if mhType := cid.Prefix().MhType; mhType != h.MhCode || len(id) != h.IDSize {
+		return fmt.Errorf("block with multihash type %d and ID size %d given to hasher of type %d and ID size %d",
+			mhType, len(id), h.MhCode, h.IDSize)
 	}
 
 	// get registered UnmarshalFn and use it to check data validity and
